@@ -482,6 +482,12 @@ func init() {
 		genCtorOffline(g, true)
 	}
 	// C14: every structure with a constructor and a Validate: valid tuples and single-defect variants
+	// CTWIN: the constructor routes that have twins (identity constructors incl. the generated-padding one,
+	// EncryptedLeaseSet from a Destination): C19 twin oracles and the C10 layout oracle live in these ops
+	suites["CTWIN"] = func(g *G) {
+		genCtorIdentities(g)
+		genCtorELS(g, false)
+	}
 	suites["C14"] = func(g *G) {
 		genCtorIdentities(g)
 		genCtorRouterAddress(g)
